@@ -13,6 +13,7 @@ import (
 
 	v1 "k8s.io/api/core/v1"
 	"k8s.io/apimachinery/pkg/api/resource"
+	metav1 "k8s.io/apimachinery/pkg/apis/meta/v1"
 
 	"verif/harness/internal/vh"
 	schedulingv1beta1 "volcano.sh/apis/pkg/apis/scheduling/v1beta1"
@@ -43,6 +44,9 @@ type taskIn struct {
 }
 type queueIn struct {
 	w       int64
+	state   int64 // 0 Open, 1 Closed, 2 Closing, 3 Unknown
+	ph1     int64 // PodGroup phase of the first job: 0 Inqueue, 1 Pending, 2 Running, 3 Unknown, 4 Completed
+	ph2     int64 // phase of a second job holding every other task; -1: no second job
 	hasCap  bool
 	cap     []cell
 	gua     []cell
@@ -104,11 +108,13 @@ func decode(in []int64) (*input, bool) {
 	nq := r.count()
 	for k := 0; k < nq && !r.bad; k++ {
 		q := queueIn{w: r.next()}
+		q.state = r.next()
 		q.hasCap = r.next() != 0
 		q.cap = r.cells(x.D)
 		q.gua = r.cells(x.D)
 		q.dsv = r.cells(x.D)
 		q.hasJobs = r.next() != 0
+		q.ph1, q.ph2 = r.next(), r.next()
 		nt := r.count()
 		for j := 0; j < nt && !r.bad; j++ {
 			t := taskIn{kind: r.next()}
@@ -148,6 +154,44 @@ func rlist(cs []cell, skipPods bool) v1.ResourceList {
 
 func qname(k int) string { return fmt.Sprintf("q%d", k+1) }
 
+var queueStates = []schedulingv1beta1.QueueState{schedulingv1beta1.QueueStateOpen, schedulingv1beta1.QueueStateClosed,
+	schedulingv1beta1.QueueStateClosing, schedulingv1beta1.QueueStateUnknown}
+var pgPhases = []schedulingv1beta1.PodGroupPhase{schedulingv1beta1.PodGroupInqueue, schedulingv1beta1.PodGroupPending,
+	schedulingv1beta1.PodGroupRunning, schedulingv1beta1.PodGroupUnknown, schedulingv1beta1.PodGroupCompleted}
+
+func pick[T any](xs []T, i int64) T {
+	if i < 0 || int(i) >= len(xs) {
+		return xs[0]
+	}
+	return xs[i]
+}
+
+// guarantee of a queue exactly as its Queue object states it (cpu/memory fields always exist)
+func specGuarantee(q queueIn) []cell {
+	out := append([]cell{}, q.gua...)
+	for j := 0; j < 2; j++ {
+		if !out[j].ok {
+			out[j] = cell{true, 0}
+		}
+	}
+	return out
+}
+
+// totalGuarantee recomputed from the Queue objects: every queue of the session, whatever its
+// state and whether or not it has jobs (proportion.go 95-101, capacity.go 1057-1063)
+func specTotalGuarantee(x *input) []cell {
+	tg := make([]cell, x.D)
+	tg[0], tg[1] = cell{true, 0}, cell{true, 0}
+	for _, q := range x.qs {
+		for j, c := range q.gua {
+			if c.ok {
+				tg[j] = cell{true, tg[j].v + c.v}
+			}
+		}
+	}
+	return tg
+}
+
 type qrec struct {
 	present                              bool
 	w                                    int64
@@ -162,7 +206,22 @@ type result struct {
 var yes = true
 
 // open a real session with one plugin and copy its per-queue records
+func parentOf(k int) string {
+	switch {
+	case k < 2:
+		return "root"
+	case (k+1)%2 == 1:
+		return qname(0)
+	default:
+		return qname(1)
+	}
+}
+
 func runOnce(x *input, plugin string) result {
+	hier := plugin == "capacity-hier"
+	if hier {
+		plugin = "capacity"
+	}
 	var snapP func() proportion.VerifSnapshot
 	var snapC func() capacity.VerifSnapshot
 	builders := map[string]framework.PluginBuilder{}
@@ -189,6 +248,7 @@ func runOnce(x *input, plugin string) result {
 			cp = rlist(q.cap, false)
 		}
 		qu := util.BuildQueue(qname(k), int32(q.w), cp)
+		qu.Status.State = pick(queueStates, q.state)
 		if g := rlist(q.gua, false); len(g) > 0 {
 			qu.Spec.Guarantee.Resource = g
 		}
@@ -197,25 +257,58 @@ func runOnce(x *input, plugin string) result {
 				qu.Spec.Deserved = d
 			}
 		}
+		if hier {
+			qu.Spec.Parent = parentOf(k)
+		}
 		t.Queues = append(t.Queues, qu)
-		if !q.hasJobs {
+		if !q.hasJobs || (hier && k < 2) {
 			continue
 		}
 		pg := fmt.Sprintf("pg%d", k+1)
-		t.PodGroups = append(t.PodGroups, util.BuildPodGroup(pg, "ns", qname(k), 1, nil, schedulingv1beta1.PodGroupInqueue))
+		pg2 := pg + "b"
+		t.PodGroups = append(t.PodGroups, util.BuildPodGroup(pg, "ns", qname(k), 1, nil, pick(pgPhases, q.ph1)))
+		if q.ph2 >= 0 {
+			t.PodGroups = append(t.PodGroups, util.BuildPodGroup(pg2, "ns", qname(k), 1, nil, pick(pgPhases, q.ph2)))
+		}
 		for j, tk := range q.tasks {
 			phase, node := v1.PodPending, ""
+			gated, deleting := false, false
 			switch tk.kind {
 			case 0:
 			case 1:
 				phase, node = v1.PodRunning, "ghost"
+			case 3:
+				gated = true
+			case 4: // assigned but not started: api.Bound
+				node = "ghost"
+			case 5: // being deleted: api.Releasing
+				phase, node, deleting = v1.PodRunning, "ghost", true
+			case 6:
+				phase, node = v1.PodFailed, "ghost"
 			default:
 				phase, node = v1.PodSucceeded, "ghost"
 			}
-			t.Pods = append(t.Pods, util.BuildPod("ns", fmt.Sprintf("p%d-%d", k+1, j), node, phase, rlist(tk.cells, true), pg, nil, nil))
+			group := pg
+			if q.ph2 >= 0 && j%2 == 1 {
+				group = pg2
+			}
+			pod := util.BuildPod("ns", fmt.Sprintf("p%d-%d", k+1, j), node, phase, rlist(tk.cells, true), group, nil, nil)
+			if gated {
+				pod.Spec.SchedulingGates = []v1.PodSchedulingGate{{Name: "example.com/hold"}}
+			}
+			if deleting {
+				now := metav1.Now()
+				pod.DeletionTimestamp = &now
+			}
+			t.Pods = append(t.Pods, pod)
 		}
 	}
-	tiers := []conf.Tier{{Plugins: []conf.PluginOption{{Name: plugin, EnabledOverused: &yes, EnabledAllocatable: &yes, EnabledQueueOrder: &yes}}}}
+	opt := conf.PluginOption{Name: plugin, EnabledOverused: &yes, EnabledAllocatable: &yes, EnabledQueueOrder: &yes}
+	if hier {
+		opt.EnabledHierarchy = &yes
+		t.Queues = append(t.Queues, util.BuildQueue("root", 1, nil))
+	}
+	tiers := []conf.Tier{{Plugins: []conf.PluginOption{opt}}}
 	ssn := t.RegisterSession(tiers, nil)
 	defer t.Close()
 	res := result{qs: make([]qrec, len(x.qs))}
@@ -244,6 +337,9 @@ func runOnce(x *input, plugin string) result {
 		s := snapC()
 		res.tg = s.TotalGuarantee
 		for id, a := range s.Queues {
+			if a.Name == "root" {
+				continue
+			}
 			fill(idx[a.Name], id, x.qs[idx[a.Name]].w, a.Deserved, a.Allocated, a.Request, a.RealCapability, a.Guarantee)
 		}
 	}
@@ -360,6 +456,9 @@ func run(sel int, in []int64) []int64 {
 		return badInput
 	}
 	plugin := "proportion"
+	if sel == 3 {
+		return runHier(x)
+	}
 	if sel == 2 {
 		plugin = "capacity"
 	} else if sel != 1 {
@@ -402,9 +501,93 @@ func run(sel int, in []int64) []int64 {
 	return out
 }
 
+// hierarchical capacity: request/allocated of the leaves are the exact observables
+func runHier(x *input) []int64 {
+	if len(x.qs) < 3 {
+		panic("hierarchical case needs two intermediate queues and a leaf")
+	}
+	runs := []result{}
+	for i := 0; i < runsPerCase; i++ {
+		runs = append(runs, runOnce(x, "capacity-hier"))
+	}
+	enc := func(r result) []int64 {
+		out := []int64{}
+		for k, q := range r.qs {
+			if !q.present {
+				panic("hierarchical capacity: queue " + qname(k) + " has no attributes")
+			}
+			if k >= 2 && x.qs[k].hasJobs {
+				out = append(out, tag(k+1)...)
+				out = append(out, encExact(q.req, x.D)...)
+				out = append(out, encExact(q.alloc, x.D)...)
+			}
+		}
+		return out
+	}
+	for i := 1; i < len(runs); i++ {
+		if fmt.Sprint(enc(runs[0])) != fmt.Sprint(enc(runs[i])) {
+			panic("two sessions over the same objects produced different request/allocated")
+		}
+	}
+	last.x, last.sel, last.runs = x, 3, runs
+	return enc(runs[0])
+}
+
+// a huge value (inherited MaxFloat64 / MaxInt64 capability) is "no bound": encoded as a missing cell
+func encScaledUnbounded(r *api.Resource, D int) []int64 {
+	out := []int64{}
+	for j := 0; j < D; j++ {
+		v, ok := cellOf(r, j)
+		if !ok || v > 1e12 {
+			out = append(out, 0)
+			continue
+		}
+		out = append(out, 1, int64(math.Round(v*scale)))
+	}
+	return out
+}
+
+// law 106 input for the children of intermediate queue p (0 or 1): "total" is the parent's own
+// realCapability as the plugin computed it, tg the children's guarantees from the Queue objects
+func hierLawInput(x *input, r result, p int) ([]int64, bool) {
+	out := []int64{int64(x.D)}
+	out = append(out, encScaledUnbounded(r.qs[p].rcap, x.D)...)
+	tg := make([]cell, x.D)
+	tg[0], tg[1] = cell{true, 0}, cell{true, 0}
+	n := 0
+	for k := 2; k < len(x.qs); k++ {
+		if parentOf(k) != qname(p) {
+			continue
+		}
+		n++
+		for j, c := range x.qs[k].gua {
+			if c.ok {
+				tg[j] = cell{true, tg[j].v + c.v}
+			}
+		}
+	}
+	out = append(out, encCellsScaled(tg)...)
+	out = append(out, int64(n))
+	for k := 2; k < len(x.qs); k++ {
+		if parentOf(k) != qname(p) {
+			continue
+		}
+		q := r.qs[k]
+		out = append(out, 1)
+		out = append(out, encCellsScaled(specGuarantee(x.qs[k]))...)
+		out = append(out, encScaledUnbounded(q.rcap, x.D)...)
+		out = append(out, encScaled(q.req, x.D)...)
+		out = append(out, encScaled(q.alloc, x.D)...)
+		out = append(out, encScaled(q.des, x.D)...)
+		out = append(out, 0)
+	}
+	return out, n > 0
+}
+
 func lawInput(x *input, r result, capacityMode bool) []int64 {
 	out := []int64{int64(x.D)}
 	out = append(out, encCellsScaled(x.total)...)
+	out = append(out, encCellsScaled(specTotalGuarantee(x))...)
 	n := 0
 	for _, q := range r.qs {
 		if q.present {
@@ -412,12 +595,13 @@ func lawInput(x *input, r result, capacityMode bool) []int64 {
 		}
 	}
 	out = append(out, int64(n))
-	for _, q := range r.qs {
+	for k, q := range r.qs {
 		if !q.present {
 			continue
 		}
 		out = append(out, q.w)
-		out = append(out, encScaled(q.gua, x.D)...)
+		// the guarantee the Queue object states, not the plugin's copy of it
+		out = append(out, encCellsScaled(specGuarantee(x.qs[k]))...)
 		out = append(out, encScaled(q.rcap, x.D)...)
 		if capacityMode {
 			out = append(out, encScaled(q.des, x.D)...) // capacity's deserved is not bounded by the request
@@ -436,8 +620,18 @@ func laws(sel int, in, got []int64, law func(lsel int, lin []int64, sig string))
 	if x == nil || last.sel != sel {
 		return
 	}
+	if sel == 3 {
+		for p := 0; p < 2; p++ {
+			if li, ok := hierLawInput(x, last.runs[0], p); ok {
+				law(106, li, "")
+			}
+		}
+		return
+	}
 	if sel == 2 {
-		law(101, lawInput(x, last.runs[0], true), "")
+		li := lawInput(x, last.runs[0], true)
+		law(101, li, "")
+		law(105, li, "")
 		return
 	}
 	for i, r := range last.runs {
@@ -454,6 +648,7 @@ func laws(sel int, in, got []int64, law func(lsel int, lin []int64, sig string))
 		law(101, li, "")
 		law(102, li, "")
 		law(103, li, "")
+		law(105, li, "")
 		if i == 0 {
 			law(104, li, "")
 		}
@@ -477,13 +672,13 @@ func (x *input) tokens() []int64 {
 	}
 	out = append(out, int64(len(x.qs)))
 	for _, q := range x.qs {
-		out = append(out, q.w, vh.B(q.hasCap))
+		out = append(out, q.w, q.state, vh.B(q.hasCap))
 		for _, cs := range [][]cell{q.cap, q.gua, q.dsv} {
 			for _, c := range cs {
 				out = append(out, encCell(c)...)
 			}
 		}
-		out = append(out, vh.B(q.hasJobs), int64(len(q.tasks)))
+		out = append(out, vh.B(q.hasJobs), q.ph1, q.ph2, int64(len(q.tasks)))
 		for _, t := range q.tasks {
 			out = append(out, t.kind, t.cells[0].v, t.cells[1].v)
 			for _, c := range t.cells[3:] {
@@ -544,7 +739,14 @@ func (g gen) weight() int64 {
 }
 
 func (g gen) queue(D int, total []cell) queueIn {
-	q := queueIn{w: g.weight(), cap: none(D), gua: none(D), dsv: none(D), hasJobs: g.r.Chance(7, 8)}
+	q := queueIn{w: g.weight(), cap: none(D), gua: none(D), dsv: none(D), hasJobs: g.r.Chance(7, 8), ph2: -1}
+	if g.r.Chance(2, 5) {
+		q.state = int64(g.r.Range(1, 3))
+	}
+	q.ph1 = vh.Pick(g.r, []int64{0, 0, 0, 1, 1, 2, 2, 3, 4})
+	if g.r.Chance(1, 3) {
+		q.ph2 = vh.Pick(g.r, []int64{0, 1, 1, 2, 3})
+	}
 	if g.r.Chance(1, 2) {
 		for j := 0; j < D; j++ {
 			if g.r.Chance(1, 2) {
@@ -575,9 +777,12 @@ func (g gen) queue(D int, total []cell) queueIn {
 }
 
 func (g gen) task(D int, total []cell) taskIn {
-	t := taskIn{kind: vh.Pick(g.r, []int64{0, 0, 0, 0, 0, 0, 1, 1, 1, 2}), cells: none(D)}
+	t := taskIn{kind: vh.Pick(g.r, []int64{0, 0, 0, 0, 0, 0, 1, 1, 1, 2, 3, 3, 4, 4, 5, 6}), cells: none(D)}
 	t.cells[0] = cell{true, g.part(total, 0, int64(g.r.Range(0, 8)), 12)}
 	t.cells[1] = cell{true, g.part(total, 1, int64(g.r.Range(0, 8)), 12)}
+	if g.r.Chance(1, 8) { // best-effort task: only the implicit pods=1
+		t.cells[0].v, t.cells[1].v = 0, 0
+	}
 	t.cells[2] = cell{true, 1}
 	for j := 3; j < D; j++ {
 		if g.r.Chance(1, 3) {
@@ -593,7 +798,7 @@ func nontrivial(x *input) bool {
 		if q.hasJobs {
 			n++
 			for _, t := range q.tasks {
-				if t.kind == 0 {
+				if t.kind == 0 || t.kind == 3 {
 					pending = true
 				}
 			}
@@ -604,6 +809,7 @@ func nontrivial(x *input) bool {
 
 func desc(x *input) any {
 	type qd struct {
+		State int64
 		W     int64
 		Cap   string
 		Gua   string
@@ -624,7 +830,7 @@ func desc(x *input) any {
 		if q.hasCap {
 			c = f(q.cap)
 		}
-		qs = append(qs, qd{q.w, c, f(q.gua), len(q.tasks)})
+		qs = append(qs, qd{q.state, q.w, c, f(q.gua), len(q.tasks)})
 	}
 	return map[string]any{"total": f(x.total), "queues": qs}
 }
@@ -674,6 +880,62 @@ func generate(rng *vh.Rng, n int, emit func(id string, sel int, in []int64, kind
 			if g.r.Chance(1, 2) {
 				x.qs = append(x.qs, g.queue(D, x.total))
 			}
+		case 3: // a queue that is not Open but still carries a guarantee (with or without jobs,
+			// possibly only Pending PodGroups) next to open queues: its guarantee stays reserved
+			kind = "proportion/non-open-guarantee"
+			x = &input{D: D, total: g.total(D, false)}
+			c := g.queue(D, x.total)
+			c.state = int64(g.r.Range(1, 3))
+			c.hasJobs = g.r.Chance(1, 2)
+			if !c.hasJobs {
+				c.tasks = nil
+			}
+			for j := 0; j < D; j++ {
+				if j != 2 && (j < 2 || g.r.Chance(1, 2)) {
+					c.gua[j] = cell{true, g.part(x.total, j, int64(g.r.Range(2, 9)), 12)}
+				}
+			}
+			x.qs = append(x.qs, c)
+			for k := g.r.Range(1, 3); k > 0; k-- {
+				q := g.queue(D, x.total)
+				q.hasJobs = true
+				if g.r.Chance(1, 2) {
+					q.ph1 = 1
+				}
+				if len(q.tasks) == 0 {
+					q.tasks = append(q.tasks, g.task(D, x.total))
+				}
+				x.qs = append(x.qs, q)
+			}
+			// shuffle so that the closed queue is not always first
+			i0 := g.r.Intn(len(x.qs))
+			x.qs[0], x.qs[i0] = x.qs[i0], x.qs[0]
+		case 4:
+			if g.r.Chance(1, 2) { // weights 0 / negative: the webhook forbids them, the scheduler does not
+				kind = "proportion/odd-weights"
+				x = &input{D: D, total: g.total(D, false)}
+				nq := g.r.Range(1, 4)
+				for k := 0; k < nq; k++ {
+					q := g.queue(D, x.total)
+					q.w = vh.Pick(g.r, []int64{0, 0, 0, 1, 2, -1})
+					x.qs = append(x.qs, q)
+				}
+			} else { // every job of every queue is a Pending PodGroup
+				kind = "proportion/pending-podgroups"
+				x = &input{D: D, total: g.total(D, false)}
+				nq := g.r.Range(1, 4)
+				for k := 0; k < nq; k++ {
+					q := g.queue(D, x.total)
+					q.ph1 = 1
+					if q.ph2 >= 0 {
+						q.ph2 = 1
+					}
+					for i := range q.tasks {
+						q.tasks[i].kind = vh.Pick(g.r, []int64{0, 0, 3})
+					}
+					x.qs = append(x.qs, q)
+				}
+			}
 		default:
 			x = &input{D: D, total: g.total(D, false)}
 			nq := vh.Pick(g.r, []int{1, 2, 2, 3, 3, 3, 4, 4, 5, 6})
@@ -684,6 +946,27 @@ func generate(rng *vh.Rng, n int, emit func(id string, sel int, in []int64, kind
 		emit(fmt.Sprintf("prop-%d", i), 1, x.tokens(), kind, nontrivial(x), desc(x))
 		if i%4 == 0 {
 			emit(fmt.Sprintf("cap-%d", i), 2, x.tokens(), "capacity/flat", nontrivial(x), desc(x))
+		}
+		if i%6 == 0 {
+			// hierarchical capacity: q1, q2 intermediate (capability + guarantee, no jobs), the rest leaves
+			h := &input{D: D, total: g.total(D, false)}
+			for k := 0; k < 2; k++ {
+				q := g.queue(D, h.total)
+				q.hasJobs, q.tasks, q.hasCap = false, nil, true
+				q.cap[0] = cell{true, g.part(h.total, 0, int64(g.r.Range(2, 8)), 8) + 1}
+				q.cap[1] = cell{true, g.part(h.total, 1, int64(g.r.Range(2, 8)), 8) + 1}
+				h.qs = append(h.qs, q)
+			}
+			for k := g.r.Range(1, 4); k > 0; k-- {
+				q := g.queue(D, h.total)
+				if g.r.Chance(1, 2) {
+					for j := 0; j < 2; j++ {
+						q.gua[j] = cell{true, g.part(h.total, j, int64(g.r.Range(0, 4)), 12)}
+					}
+				}
+				h.qs = append(h.qs, q)
+			}
+			emit(fmt.Sprintf("hier-%d", i), 3, h.tokens(), "capacity/hierarchical", len(h.qs) >= 4, desc(h))
 		}
 		if i%25 == 0 {
 			// malformed: truncated or out-of-range dimension count
